@@ -328,14 +328,14 @@ pub fn run(rep: &Report) -> Value {
     let st_h: Stats = for_all(rep, "frames coalesced with the handshake acknowledgement", &hand, |c, ctx| handover_exec(c, ctx));
     let wlens: Vec<Vec<usize>> = vec![vec![0, 1, 2, 0, 255, 256], vec![65_535, 65_536, 65_537, 3], vec![200_000, 0, 1 << 20, 5], vec![70_000, 70_001]];
     let st_w: Stats = for_all(rep, "send_raw against the one-shot framing", &wlens, |c, ctx| send_raw_exec(c, ctx));
-    let big: Vec<(usize, usize)> = vec![(65_535, 0), (65_536, 0), (65_537, 0), (200_000, 0), (1 << 20, 0), (4, 1), (50, 1), (70_000, 1), (3, 2), (8, 2), (300, 2), (70_000, 2), (0, 3), (0, 4), (2, 5), (3, 5), (9, 5),
+    let big: Vec<(usize, usize)> = vec![(65_535, 0), (65_536, 0), (65_537, 0), (200_000, 0), (1 << 20, 0), ((1 << 20) + 1, 0), ((1 << 20) + 70_000, 0), (3 << 20, 0), (4, 1), (50, 1), (70_000, 1), (3, 2), (8, 2), (300, 2), (70_000, 2), (0, 3), (0, 4), (2, 5), (3, 5), (9, 5),
         ((64 << 20) + 1, 6), (100 << 20, 6), (200 << 20, 6), (256 << 20, 6), ((256 << 20) + 1, 6), (u32::MAX as usize, 6)];
     let st_b: Stats = for_all(rep, "large frames after the handshake; end of stream inside a frame on the read half", &big, |c, ctx| recv_big_exec(c, ctx));
     // the writing side when a write is given up half way (peer stops reading, clock passes the I/O timeout) and the
     // connection is connected again: the new session's peer reads exactly the frames written in it (scenario of C07)
     let sr: Vec<(usize, usize)> = vec![(0, 0), (0, 1), (0, 2), (1, 0), (1, 1), (1, 2)];
     let st_sr: Stats = for_all(rep, "a frame stalling inside its body past the I/O timeout", &sr, |c, ctx| stall_receive_exec(c, ctx));
-    let stalls = [(24usize, false, true), (24, true, true), (24, true, false)];
+    let stalls = [(24usize, false, true), (24, true, true), (24, true, false), (24, false, false)];
     let st_stall: Stats = for_all(rep, "write given up half way, reconnect, write again", &stalls, |c, ctx| crate::c07::stalled_conn_exec(c, ctx));
     json!({
         "stalled_writer_executions": st_stall.executions,
